@@ -226,6 +226,8 @@ impl Method for SMM {
 //@hint start
 	// the window slide as a multiset update, available at every exit of the function (an early return that leaves the slice alone needs only this)
 	broadcast use lemma_cnt_slide;
+	// bit-identical values are numerically equal (a fast path that compares bit patterns needs only this)
+	broadcast use bits_axiom;
 //@hint before let old_index
 	let ghost s0 = self.slice@;
 	let ghost nv = self.window.view();
